@@ -346,7 +346,7 @@ func c16Clone(c *core.Ctx, pkg *packages.Package, startOp, stopOp string) {
 		if ifs, ok := nd.(*ast.IfStmt); ok {
 			if be, ok := ifs.Cond.(*ast.BinaryExpr); ok && be.Op == token.EQL && an.IsNil(info, be.Y) && (an.FieldSel(info, be.X, "Query", "startTL") || an.FieldSel(info, be.X, "Query", "stopTL")) {
 				for _, st := range ifs.Body.List {
-					if as, ok := st.(*ast.AssignStmt); ok && len(as.Lhs) == 1 && types.ExprString(as.Lhs[0]) == "err" {
+					if as, ok := st.(*ast.AssignStmt); ok && len(as.Lhs) == 1 && an.IsErrorType(info, as.Lhs[0]) {
 						missing++
 					}
 				}
@@ -436,7 +436,7 @@ func c16Range(c *core.Ctx, pkg *packages.Package) {
 	const offSuffix, perSuffix = ".Add((-1 * n.b.Offset))", ".Add((-1 * n.b.Period))"
 	// live
 	if fn := c.Need("C16.range", "", "QueryNode", "doQuery"); fn != nil {
-		eng := &an.Engine{Prog: c.P, TrackCall: track, MaxPaths: 40000}
+		eng := &an.Engine{Prog: c.P, TrackCall: track, MaxPaths: 40000, Alias: map[string]string{an.RecvVarName(fn.Decl): "n"}}
 		paths, err := eng.Run(fn)
 		if err != nil {
 			c.Undecided("C16.range", "QueryNode.doQuery", fn.Decl.Pos(), "%v", err)
@@ -478,7 +478,7 @@ func c16Range(c *core.Ctx, pkg *packages.Package) {
 	}
 	// historical
 	if fn := c.Need("C16.range", "", "QueryNode", "Queries"); fn != nil {
-		eng := &an.Engine{Prog: c.P, TrackCall: track}
+		eng := &an.Engine{Prog: c.P, TrackCall: track, Alias: map[string]string{an.RecvVarName(fn.Decl): "n", an.ParamName(fn.Decl.Type, 0): "start", an.ParamName(fn.Decl.Type, 1): "stop"}}
 		paths, err := eng.Run(fn)
 		if err != nil {
 			c.Undecided("C16.range", "QueryNode.Queries", fn.Decl.Pos(), "%v", err)
@@ -514,7 +514,7 @@ func c16Range(c *core.Ctx, pkg *packages.Package) {
 					c.Fail("C16.bound", "QueryNode.Queries#until-now", afters[1].Pos, "the second bound must compare the query stop (tick − offset) with now; it is %s.After(%s)", shortKey(afters[1].Recv), shortKey(afters[1].Args[0]))
 				}
 			}
-			if !strings.HasSuffix(nx.Args[0], "start.Local()") && !strings.Contains(nx.Args[0], "current") {
+			if !strings.HasSuffix(nx.Args[0], "start.Local()") && !strings.Contains(nx.Args[0], "~") {
 				bgood = false
 				c.Fail("C16.bound", "QueryNode.Queries#from-start", nx.Pos, "the first tick must be computed from start.Local() (cron expressions are evaluated in local time, like the live ticker); it is computed from %s", shortKey(nx.Args[0]))
 			}
@@ -553,8 +553,21 @@ func c16Range(c *core.Ctx, pkg *packages.Package) {
 					cont++
 				}
 			case *ast.IfStmt:
-				if types.ExprString(x.Cond) == "stop.IsZero()" && len(x.Body.List) == 1 && types.ExprString(x.Body.List[0].(*ast.AssignStmt).Rhs[0]) == "now" {
-					zeroStop = true
+				stopP := an.ParamName(fn.Decl.Type, 1)
+				if types.ExprString(x.Cond) == stopP+".IsZero()" && len(x.Body.List) == 1 {
+					if as, ok := x.Body.List[0].(*ast.AssignStmt); ok && len(as.Lhs) == 1 && types.ExprString(as.Lhs[0]) == stopP {
+						// the value is the local that holds time.Now()
+						rhs := types.ExprString(as.Rhs[0])
+						ast.Inspect(fn.Decl.Body, func(m ast.Node) bool {
+							if d, ok := m.(*ast.AssignStmt); ok && d.Tok == token.DEFINE && len(d.Lhs) == 1 && len(d.Rhs) == 1 && types.ExprString(d.Lhs[0]) == rhs && types.ExprString(d.Rhs[0]) == "time.Now()" {
+								zeroStop = true
+							}
+							return true
+						})
+						if rhs == "time.Now()" {
+							zeroStop = true
+						}
+					}
 				}
 			}
 			return true
@@ -588,7 +601,7 @@ func c16Range(c *core.Ctx, pkg *packages.Package) {
 func c16Ticker(c *core.Ctx, pkg *packages.Package) {
 	info := pkg.TypesInfo
 	if fn := c.Need("C16.ticker", "", "timeTicker", "Next"); fn != nil {
-		eng := &an.Engine{Prog: c.P,
+		eng := &an.Engine{Prog: c.P, Alias: map[string]string{an.RecvVarName(fn.Decl): "t", an.ParamName(fn.Decl.Type, 0): "now"},
 			Classify: func(a an.Atom) (string, bool) {
 				if strings.HasSuffix(a.Key, ".align") {
 					return "align", false
@@ -623,13 +636,24 @@ func c16Ticker(c *core.Ctx, pkg *packages.Package) {
 	// live first tick of the aligned ticker
 	if fn := c.Need("C16.ticker", "", "timeTicker", "Start"); fn != nil {
 		first := ""
+		rv := an.RecvVarName(fn.Decl)
+		nowN := ""
 		ast.Inspect(fn.Decl.Body, func(n ast.Node) bool {
-			if as, ok := n.(*ast.AssignStmt); ok && len(as.Lhs) == 1 && types.ExprString(as.Lhs[0]) == "next" && as.Tok == token.DEFINE {
-				first = types.ExprString(as.Rhs[0])
+			if as, ok := n.(*ast.AssignStmt); ok && len(as.Lhs) == 1 && len(as.Rhs) == 1 && as.Tok == token.DEFINE && types.ExprString(as.Rhs[0]) == "time.Now()" && nowN == "" {
+				nowN = types.ExprString(as.Lhs[0])
 			}
 			return true
 		})
-		c.Check(first == "now.Truncate(t.every).Add(t.every)" || first == "now.Add(t.every).Truncate(t.every)", "C16.ticker", "timeTicker.Start#first-tick", fn.Decl.Pos(), "the aligned ticker's first tick must be the next multiple of every after now (found %q)", first)
+		want1, want2 := nowN+".Truncate("+rv+".every).Add("+rv+".every)", nowN+".Add("+rv+".every).Truncate("+rv+".every)"
+		ast.Inspect(fn.Decl.Body, func(n ast.Node) bool {
+			if as, ok := n.(*ast.AssignStmt); ok && len(as.Lhs) == 1 && len(as.Rhs) == 1 && as.Tok == token.DEFINE {
+				if r := types.ExprString(as.Rhs[0]); r == want1 || r == want2 {
+					first = r
+				}
+			}
+			return true
+		})
+		c.Check(nowN != "" && first != "", "C16.ticker", "timeTicker.Start#first-tick", fn.Decl.Pos(), "the aligned ticker's first tick must be the next multiple of every after now (found %q)", first)
 	}
 	// cron: same function, same clock zone
 	if fn := c.Need("C16.ticker", "", "cronTicker", "Next"); fn != nil {
@@ -640,7 +664,7 @@ func c16Ticker(c *core.Ctx, pkg *packages.Package) {
 			}
 			return true
 		})
-		c.Check(ret == "c.expr.Next(now)", "C16.ticker", "cronTicker.Next", fn.Decl.Pos(), "cronTicker.Next must be expr.Next(now) (found %q)", ret)
+		c.Check(ret == an.RecvVarName(fn.Decl)+".expr.Next("+an.ParamName(fn.Decl.Type, 0)+")", "C16.ticker", "cronTicker.Next", fn.Decl.Pos(), "cronTicker.Next must be expr.Next(now) (found %q)", ret)
 	}
 	if fn := c.Need("C16.ticker", "", "cronTicker", "Start"); fn != nil {
 		defs := map[string]string{}
@@ -658,13 +682,21 @@ func c16Ticker(c *core.Ctx, pkg *packages.Package) {
 			}
 			return true
 		})
-		arg := strings.TrimSuffix(strings.TrimPrefix(defs["next"], "c.expr.Next("), ")")
+		rv := an.RecvVarName(fn.Decl)
+		// the scheduled time by role: the local defined as expr.Next(…)
+		nextN := ""
+		for k, d := range defs {
+			if strings.HasPrefix(d, rv+".expr.Next(") {
+				nextN = k
+			}
+		}
+		arg := strings.TrimSuffix(strings.TrimPrefix(defs[nextN], rv+".expr.Next("), ")")
 		src := arg
 		if d, ok := defs[arg]; ok {
 			src = d
 		}
-		c.Check(strings.HasPrefix(defs["next"], "c.expr.Next(") && src == "time.Now()", "C16.ticker", "cronTicker.Start#clock", fn.Decl.Pos(), "the live cron tick must be expr.Next(time.Now()) on un-converted local time, as the historical list uses start.Local(); found next = %s with %s = %s: a cron expression naming hours or days fires at different instants live and historically", defs["next"], arg, src)
-		c.Check(sent == "next", "C16.ticker", "cronTicker.Start#tick-value", fn.Decl.Pos(), "the cron ticker must send the scheduled time (found %q): the query range is derived from the tick value", sent)
+		c.Check(nextN != "" && src == "time.Now()", "C16.ticker", "cronTicker.Start#clock", fn.Decl.Pos(), "the live cron tick must be expr.Next(time.Now()) on un-converted local time, as the historical list uses start.Local(); found next = %s with %s = %s: a cron expression naming hours or days fires at different instants live and historically", defs[nextN], arg, src)
+		c.Check(nextN != "" && sent == nextN, "C16.ticker", "cronTicker.Start#tick-value", fn.Decl.Pos(), "the cron ticker must send the scheduled time (found %q): the query range is derived from the tick value", sent)
 	}
 }
 
@@ -727,7 +759,7 @@ func c16DBRPs(c *core.Ctx, pkg *packages.Package) {
 		}
 	}
 	if fn := c.Need("C16.dbrps", "", "ExecutingTask", "checkDBRPs"); fn != nil {
-		eng := &an.Engine{Prog: c.P, ElemKeys: true,
+		eng := &an.Engine{Prog: c.P, ElemKeys: true, Alias: map[string]string{an.RecvVarName(fn.Decl): "et"},
 			Classify: func(a an.Atom) (string, bool) {
 				switch {
 				case a.Op == token.EQL && a.R == "nil" && an.LastCall(a.L) == "DBRPs":
@@ -772,14 +804,32 @@ func c16DBRPs(c *core.Ctx, pkg *packages.Package) {
 				c.Ok("C16.dbrps", "ExecutingTask.checkDBRPs")
 			}
 		}
-		c09LoopNoExitErr(c, "C16.dbrps", "ExecutingTask.checkDBRPs#all", fn, "dbrps")
+		// the listed pairs by role: first result of the DBRPs() call
+		listed := "dbrps"
+		ast.Inspect(fn.Decl.Body, func(n ast.Node) bool {
+			if as, ok := n.(*ast.AssignStmt); ok && len(as.Lhs) == 2 && len(as.Rhs) == 1 {
+				if call, ok := as.Rhs[0].(*ast.CallExpr); ok {
+					if sel, ok := call.Fun.(*ast.SelectorExpr); ok && sel.Sel.Name == "DBRPs" {
+						listed = types.ExprString(as.Lhs[0])
+					}
+				}
+			}
+			return true
+		})
+		c09LoopNoExitErr(c, "C16.dbrps", "ExecutingTask.checkDBRPs#all", fn, listed)
 	}
 	// Query.DBRPs: every source is recorded as (db, rp), refused, or handed to a recursive call
 	if fn := c.Need("C16.dbrps", "", "Query", "DBRPs"); fn != nil {
-		eng := &an.Engine{Prog: c.P, ElemKeys: true,
+		eng := &an.Engine{Prog: c.P, ElemKeys: true, Alias: map[string]string{an.RecvVarName(fn.Decl): "q"},
 			TrackStore: func(lhs ast.Expr, key string) string {
-				if ix, ok := ast.Unparen(lhs).(*ast.IndexExpr); ok && types.ExprString(ix.X) == "dbrps" {
-					return "record"
+				if ix, ok := ast.Unparen(lhs).(*ast.IndexExpr); ok {
+					if tv, ok := info.Types[ix.X]; ok {
+						if sl, ok := tv.Type.Underlying().(*types.Slice); ok {
+							if named := core.NamedOf(sl.Elem()); named != nil && named.Obj().Name() == "DBRP" {
+								return "record"
+							}
+						}
+					}
 				}
 				return ""
 			},
@@ -839,10 +889,10 @@ func c16DBRPs(c *core.Ctx, pkg *packages.Package) {
 				c.Fail("C16.dbrps", "Query.DBRPs", fn.Decl.Pos(), "no path of DBRPs records a source's database and retention policy")
 			}
 		}
-		c09LoopNoExitErr(c, "C16.dbrps", "Query.DBRPs#all", fn, "q.stmt.Sources")
+		c09LoopNoExitErr(c, "C16.dbrps", "Query.DBRPs#all", fn, an.RecvVarName(fn.Decl)+".stmt.Sources")
 	}
 	if fn := c.Need("C16.dbrps", "", "BatchNode", "DBRPs"); fn != nil {
-		c09LoopNoExitErr(c, "C16.dbrps", "BatchNode.DBRPs#all", fn, "n.children")
+		c09LoopNoExitErr(c, "C16.dbrps", "BatchNode.DBRPs#all", fn, an.RecvVarName(fn.Decl)+".children")
 		appends := false
 		ast.Inspect(fn.Decl.Body, func(n ast.Node) bool {
 			if call, ok := n.(*ast.CallExpr); ok && core.IsBuiltin(info, call, "append") && call.Ellipsis != token.NoPos {
